@@ -59,7 +59,7 @@ package memberlist
 //@ pure quiet() bool := $ev == old($ev) && $bq == old($bq) && $cf == old($cf)
 // cfgOK: configuration validity that Create does not enforce and the code relies on (assumed, DESIGN §7.5)
 //@ pure cfgOK(c *Config) bool := c.IndirectChecks >= 0 && c.GossipNodes >= 0 && c.SuspicionMaxTimeoutMult >= 1 && c.ProbeInterval >= 0 && c.SuspicionMult >= 0 && c.UDPBufferSize <= 65535
-//@ pure mlOK(m *Memberlist) bool := m != nil && m.config != nil && cfgOK(m.config) && m.awareness != nil && m.nodeMap != nil && m.nodeTimers != nil && m.broadcasts != nil && m.logger != nil
+//@ pure mlOK(m *Memberlist) bool := m != nil && m.config != nil && cfgOK(m.config) && m.awareness != nil && m.nodeMap != nil && m.nodeTimers != nil && m.broadcasts != nil && m.broadcasts.NumNodes != nil && m.logger != nil
 
 //@ atomic Memberlist.incarnation rely nondecreasing
 //@ atomic Memberlist.leave rely monotone01
